@@ -119,6 +119,8 @@ func (ye *YouTubeExtractor) getDataFromSrcURL(srcURL string) (string, map[string
 		srcURL = "http:" + srcURL
 	}
 
+	// The fragment is not part of the path (ParseRequestURI does not split it off).
+	srcURL, _, _ = strings.Cut(srcURL, "#")
 	parsedURL, err := nurl.ParseRequestURI(srcURL)
 	if err != nil {
 		return "", nil
